@@ -13,10 +13,10 @@ def jobs(tier, ctx):
                     inputs='mtimes and existence of source, inherited source, inherited saved binary; ids',
                     assumptions=['file system and stdio are stubs; one inherit entry; the program image is a zeroed program_t with the inherit table behind it', 'equality of the loaded program with a fresh compile and relocation are outside']))
     import itertools, os
-    # the scratch arrays of sort_function_table come from CALLOCATE: VERIF_XALLOC_STRIP (DESIGN corrections 19)
+    # the scratch arrays of sort_function_table come from CALLOCATE (see DESIGN corrections 19 and world/world_base.c xalloc)
     for nf in ((2, 3) if tier == 'quick' else (2, 3, 4)):
       for perm in itertools.permutations(range(nf)):
-        out.append(dict(name='resort.n%d.order%s' % (nf, ''.join(map(str, perm))), srcs=['@harness/C17/resort.c', 'lib/misc/qsort.c'], stubs=BASE, defs=['NF=%d' % nf, 'ORDER=' + ','.join(map(str, perm)), 'VMW_HAVE_NOTHING=1', 'VERIF_XALLOC_STRIP=1'], unwind=2 * nf + 6, nobody_ok=['*'],
+        out.append(dict(name='resort.n%d.order%s' % (nf, ''.join(map(str, perm))), srcs=['@harness/C17/resort.c', 'lib/misc/qsort.c'], stubs=BASE, defs=['NF=%d' % nf, 'ORDER=' + ','.join(map(str, perm)), 'VMW_HAVE_NOTHING=1'], unwind=2 * nf + 6, nobody_ok=['*'],
                         targets=['sort_function_table', 'compare_compiler_funcs'], timeout=300, mem_gb=4, opt_witness=['order_changed'], restrict_fp=['qSort.function_pointer_call.1/compare_compiler_funcs'], union_as_struct=False,
                         desc='sort_function_table on a flat program of %d functions whose names get the relative address order %s at load time: the table is sorted, every runtime index reaches the same function, the argument type offsets follow their function' % (nf, perm),
                         inputs='type_start values (the address order is one concrete permutation per job; all permutations are run)', assumptions=['flat program (no inherited, overloaded or deleted entries in the compressed table)']))
